@@ -5,6 +5,9 @@ def run(prop, tier, seed):
     if prop in plans.SCEN:
         from . import scen_check
         return scen_check.run(prop, tier, seed)
+    if prop == 'C12':
+        from . import thr
+        return thr.run(prop, tier, seed)
     print('property %s is not claimed' % prop)
     return 2
 
